@@ -73,3 +73,26 @@ Definition P_wall (cfg : option settings) (n_started wall : Z) : bool :=
       then n_started <=? s_burst s + ceil_div wall (s_interval s)
       else true
   end.
+
+(* ---- operator level ----
+   Observable: per hook the settings it was configured with, the instants (one clock, in
+   the order they were seen) at which executions of the hook STARTED - whatever caused
+   them: a first attempt, a retry of a failed run, any binding type, any queue - and the
+   hooks a queue worker was seen waiting for in RateLimitWait.
+     "the number of its queued executions started within any time window of length T never
+      exceeds B + T/I (rounded up), however many events arrive"   -> [window_ok] on the starts
+     "hooks without settings are not throttled"                    -> never seen waiting *)
+Definition starts_of (h : N) (starts : list (N * Z)) : list Z :=
+  map snd (filter (fun p => N.eqb (fst p) h) starts).
+
+Definition P_hook (cfg : option settings) (starts : list Z) (throttled : bool) : bool :=
+  match cfg with
+  | None => negb throttled
+  | Some s =>
+      if (0 <? s_interval s) && (1 <=? s_burst s)
+      then window_ok (s_interval s) (s_burst s) starts
+      else true
+  end.
+
+Definition P_op (hs : hook_settings) (starts : list (N * Z)) (throttled : list N) : bool :=
+  forallb (fun h => P_hook (settings_of hs h) (starts_of h starts) (mem_N h throttled)) (map fst hs).
